@@ -221,6 +221,19 @@ type File struct {
 	// whole execution; returning (k, true) writes only k bytes and reports an error.
 	FailWrite func(n int, size int) (int, bool)
 	Counter   *int
+	// FailOp, if set, is consulted before every WriteAt, Sync and Truncate with the running
+	// number of such operations (OpCounter) and the operation name; returning (k, true) makes the
+	// operation fail (a WriteAt after writing k bytes) WITHOUT any crash: in-process fault.
+	FailOp    func(n int, op string, size int) (int, bool)
+	OpCounter *int
+}
+
+func (f *File) fault(op string, size int) (int, bool) {
+	if f.OpCounter == nil || f.FailOp == nil {
+		return 0, false
+	}
+	*f.OpCounter++
+	return f.FailOp(*f.OpCounter, op, size)
 }
 
 type injectedError struct{}
@@ -239,6 +252,15 @@ func (f *File) WriteAt(p []byte, off int64) (int, error) {
 		n = *f.Counter
 	}
 	f.Rec.Point(fmt.Sprintf("file:WriteAt(%d bytes)@%s", len(p), f.Name))
+	if k, fail := f.fault("WriteAt", len(p)); fail {
+		if k > len(p) {
+			k = len(p) / 2
+		}
+		if k > 0 {
+			f.Under.WriteAt(p[:k], off)
+		}
+		return k, ErrInjected
+	}
 	if f.FailWrite != nil {
 		if k, fail := f.FailWrite(n, len(p)); fail {
 			if k > 0 {
@@ -264,11 +286,17 @@ func (f *File) WriteAt(p []byte, off int64) (int, error) {
 
 func (f *File) Truncate(size int64) error {
 	f.Rec.Point(fmt.Sprintf("file:Truncate@%s", f.Name))
+	if _, fail := f.fault("Truncate", 0); fail {
+		return ErrInjected
+	}
 	return f.Under.Truncate(size)
 }
 
 func (f *File) Sync() error {
 	f.Rec.Point(fmt.Sprintf("file:Sync@%s", f.Name))
+	if _, fail := f.fault("Sync", 0); fail {
+		return ErrInjected
+	}
 	return f.Under.Sync()
 }
 
